@@ -1,6 +1,7 @@
 use crate::engine::{Ctx, PropInfo, Verdict};
 use serde_json::Value;
 
+pub mod bigpkt;
 pub mod c01;
 pub mod c02;
 pub mod c05;
